@@ -57,6 +57,17 @@ def run(tier):
         for k, action in ((-1, "drain"), (1, "close"), (3, "cancel_close")):
             add(query="SELECT id, a, b FROM r", next_k=k, action=action, gomaxprocs=rnd.choice([1, 4]), yield_first=bool(j % 2), table="r", n=counts["r"],
                 fault=True, fail_at=j)
+        # the same as a short read (what a truncated file gives: io.EOF, which database/sql takes for the end of the rows
+        # unless the driver says otherwise)
+        add(query="SELECT id, a, b FROM r", next_k=-1, action="drain", gomaxprocs=rnd.choice([1, 4]), yield_first=bool(j % 2), table="r", n=counts["r"],
+            fault=True, fail_at=j, fail_mode="short")
+    # really truncated files: cut inside a page and at a page boundary, inside the table that is read
+    size = os.path.getsize(db)
+    for name, cut in (("cut-mid", size - 1024 - 300), ("cut-page", size - 2048), ("cut-half", (size // 2048) * 1024 + 17)):
+        tp = os.path.join(d, name + ".db")
+        open(tp, "wb").write(open(db, "rb").read()[:cut])
+        for q, t, cols in queries[:6]:
+            add(query=q, next_k=-1, action="drain", gomaxprocs=4, yield_first=False, table=t, n=counts[t], fault=False, db=tp, truncated=True)
     # errors that must surface
     bad = [("SELECT * FROM nosuch", "query"), ("SELECT nosuch FROM r", "rows"), ("DELETE FROM r", "query"), ("INSERT INTO r VALUES(1)", "query"),
            ("this is not sql", "query"), ("SELECT id FROM r WHERE id = 1", "query"), ("CREATE TABLE x(a)", "query"), ("SELECT a, nosuch FROM r", "rows")]
@@ -68,19 +79,36 @@ def run(tier):
         for k, action in ((0, "close"), (2, "cancel_close"), (-1, "drain")):
             add(query=q, next_k=k, action=action, gomaxprocs=4, yield_first=True, table=t, n=counts[t], fault=False, prepared=True)
     req, out = os.path.join(d, "req.ndjson"), os.path.join(d, "res.ndjson")
-    common.write_ndjson(req, [{k: s[k] for k in s if k in ("id", "db", "query", "next_k", "action", "gomaxprocs", "yield_first", "fail_at", "prepared")} for s in scen])
+    common.write_ndjson(req, [{k: s[k] for k in s if k in ("id", "db", "query", "next_k", "action", "gomaxprocs", "yield_first", "fail_at", "fail_mode", "prepared")} for s in scen])
     rc, txt, _ = common.run([h, "driver", req, out], timeout=3000)
     if rc != 0:
         raise Infra("harness driver failed: " + txt[-1500:])
     res = {r_["id"]: r_ for r_ in common.read_ndjson(out)}
     schedules, metas, pairs = [], {}, []
+    truncated_seen = {"native_err": 0, "native_ok": 0}
     for s in scen:
         rs = res[s["id"]]
         name = "s%d" % s["id"]
-        metas[name] = {k: s[k] for k in s if k in ("query", "next_k", "action", "gomaxprocs", "yield_first", "fail_at", "must_fail", "prepared")}
+        metas[name] = {k: s[k] for k in s if k in ("query", "next_k", "action", "gomaxprocs", "yield_first", "fail_at", "fail_mode", "must_fail", "prepared", "truncated", "db")}
         if rs.get("panic"):
             v.report("C19:panic", "scenario %s panicked: %s" % (json.dumps(metas[name]), rs["panic"]),
                      lambda s=s, rs=rs: common.write_replay("C19", "panic-%d.json" % s["id"], {"scenario": metas["s%d" % s["id"]], "result": rs}))
+            continue
+        if s.get("truncated"):
+            # what the native API says about the same truncated file decides: if it reports an error, so must the driver
+            t = s["table"]
+            allcols = [c["name"] for c in desc["tables"][t]["columns"]]
+            nreq, nout = os.path.join(d, "t-req.ndjson"), os.path.join(d, "t-res.ndjson")
+            common.write_ndjson(nreq, [{"db": s["db"], "mode": "fresh", "ops": [{"op": "select_all", "id": 0, "table": t, "cols": allcols}]}])
+            common.run([h, "ops", nreq, nout], timeout=120, check=True)
+            nat = common.read_ndjson(nout)[0]
+            surfaced = bool(rs.get("query_err") or rs.get("next_err") or rs.get("close_err"))
+            truncated_seen["native_err" if nat.get("err") else "native_ok"] += 1
+            if nat.get("err") and not surfaced:
+                v.report("C19:error-not-surfaced:truncated-file", "%r on a truncated file returned %d rows and no error through Query, Scan, rows.Err or Close; the native select reports %r after %d rows"
+                         % (s["query"], len(rs.get("rows") or []), nat.get("err"), len(nat.get("rows") or [])),
+                         lambda s=s, rs=rs: common.write_replay("C19", "truncated-%d.json" % s["id"], {"scenario": metas["s%d" % s["id"]], "result": {k_: rs[k_] for k_ in rs if k_ != "rows"}}))
+            v.nontrivial((s["query"], os.path.basename(s["db"])))
             continue
         if s.get("must_fail"):
             surfaced = bool(rs.get("query_err") or rs.get("next_err") or rs.get("close_err"))
@@ -137,6 +165,9 @@ def run(tier):
     nraces = rerr.count("WARNING: DATA RACE")
     if p.returncode not in (0, 66):
         raise Infra("race-detector run of the driver scenarios failed rc=%d: %s" % (p.returncode, rerr[-1000:]))
+    v.cov["truncated_file_scenarios"] = truncated_seen
+    if not truncated_seen["native_err"]:
+        raise Infra("no truncated-file scenario made the native select fail: the scenarios are vacuous")
     v.cov["race_detector_scenarios"] = len(rsc)
     v.cov["race_reports"] = nraces
     if nraces:
